@@ -62,3 +62,92 @@ package dnsserver
 //@ ensures[badvers] err == nil ==> cnt["DNS_queries_badvers"] == old(cnt)["DNS_queries_badvers"] + ite(old(resp.Rcode) == dns.RcodeBadVers, 1, 0)
 //@ ensures[nodata] err == nil ==> cnt["DNS_queries_nodata"] == old(cnt)["DNS_queries_nodata"] + ite(old(resp.Rcode) == dns.RcodeSuccess && len(resp.Answer) == 0, 1, 0)
 //@ ensures[others] err == nil ==> cnt["DNS_queries"] == old(cnt)["DNS_queries"]
+
+// ---- assumed contracts of miekg/dns, coredns, golang-lru used by the query handler ---------------------
+//@ extern github.com/miekg/dns Msg.SetReply
+//@ modifies dns
+//@ ensures dns.Id == request.Id && dns.Response && dns.Rcode == 0 && dns.Opcode == request.Opcode && !dns.Authoritative == !old(dns.Authoritative) && len(dns.Answer) == old(len(dns.Answer)) && dns.Answer == old(dns.Answer) && dns.Ns == old(dns.Ns) && dns.Extra == old(dns.Extra)
+//@ ensures result == dns
+
+//@ extern github.com/miekg/dns Msg.SetRcode
+//@ modifies dns
+//@ ensures dns.Id == request.Id && dns.Response && dns.Rcode == rcode && len(dns.Answer) == old(len(dns.Answer)) && dns.Answer == old(dns.Answer) && dns.Ns == old(dns.Ns) && dns.Extra == old(dns.Extra) && dns.Authoritative == old(dns.Authoritative)
+//@ ensures result == dns
+
+//@ extern github.com/miekg/dns Msg.Copy
+//@ ensures result != nil && fresh(result) && result.MsgHdr == dns.MsgHdr && len(result.Answer) == len(dns.Answer) && len(result.Ns) == len(dns.Ns) && len(result.Extra) == len(dns.Extra)
+
+//@ extern github.com/miekg/dns Msg.IsEdns0
+//@ pure
+//@ ensures result == uf.edns0of(dns)
+
+//@ extern github.com/miekg/dns PackDomainName
+//@ modifies msg[0:len(msg)]
+//@ ensures err == nil ==> off1 >= 1 && off1 <= len(msg) && msg[0] <= 63 && (msg[0] == 0 ==> off1 == 1) && (msg[0] != 0 ==> msg[0] + 2 <= off1)
+
+//@ extern github.com/miekg/dns UnpackDomainName
+//@ pure
+
+//@ extern github.com/miekg/dns HandleFailed
+//@ updates nwritten, lastWritten, writtenAt
+
+//@ extern github.com/coredns/coredns/plugin/pkg/edns Version
+//@ ensures err != nil ==> result0 != nil && fresh(result0) && result0.Rcode == dns.RcodeBadVers && result0.Id == req.Id && result0.Response
+
+//@ extern github.com/coredns/coredns/request Request.Do
+//@ pure
+//@ extern github.com/coredns/coredns/request Request.QType
+//@ pure
+//@ ensures result == uf.qtypeof(r.Req)
+//@ extern github.com/coredns/coredns/request Request.QClass
+//@ pure
+//@ extern github.com/coredns/coredns/request Request.Name
+//@ pure
+//@ extern github.com/coredns/coredns/request Request.QName
+//@ pure
+//@ extern github.com/coredns/coredns/request Request.IP
+//@ pure
+//@ ufun qtypeof(int) int
+
+//@ extern github.com/hashicorp/golang-lru Cache.Get
+//@ pure
+//@ ensures ok ==> value != nil && dyntype(value) == typetag("dnsserver.cacheEntry") && unbox(value, "dnsserver.cacheEntry").response != nil
+//@ extern github.com/hashicorp/golang-lru Cache.Add
+//@ pure
+//@ extern github.com/hashicorp/golang-lru Cache.Remove
+//@ pure
+
+//@ func FBDNSDB.AcquireReader
+//@ trusted
+//@ ensures err == nil ==> result0 != nil
+
+// every per-type counter key is "DNS_query.<TYPE>": its 10th byte is '.', unlike any fixed counter name
+//@ func typeToStatsKey
+//@ trusted
+//@ pure
+//@ ensures len(result) >= 10 && result[9] == '.'
+
+//@ func GetMaxAnswer
+//@ trusted
+//@ pure
+
+// ---- the query handler's decision skeleton (C01, C10, C12, C13, C19) -----------------------------------
+//@ func FBDNSDB.ServeDNSWithRCODE
+//@ updates cnt, nlogged, lastLogged, loggedAt, nlogfailed, nwritten, lastWritten, writtenAt, mut
+//@ flag skip frame
+//@ requires h.logger != nil && h.stats != nil && w != nil && r != nil
+//@ requires h.cacheConfig.Enabled ==> h.lru != nil
+//@ ensures[queries] cnt["DNS_queries"] == old(cnt)["DNS_queries"] + 1
+//@ before writeAndLog#0 assert[badvers] a != nil && a.Rcode == dns.RcodeBadVers && a.Id == r.Id && a.Response
+//@ before writeAndLog#1 assert[hit-shape] resp != nil && resp.Id == r.Id && resp.Response
+//@ before writeAndLog#1 assert[hit-opt] (uf.edns0of(r) != nil) == (o != nil)
+//@ before writeAndLog#1 assert[hit-ecs] o != nil ==> len(o.Option) == ite(ecs != nil, 1, 0)
+//@ before writeAndLog#2 assert[refused] m != nil && m.Rcode == dns.RcodeRefused && m.Id == r.Id && m.Response && !ns && !auth && len(m.Answer) == 0
+//@ before writeAndLog#3 assert[shape] a != nil && a.Id == r.Id && a.Response
+//@ before writeAndLog#3 assert[auth] a.Authoritative == auth
+//@ before writeAndLog#3 assert[rcode] a.Rcode == dns.RcodeSuccess || (a.Rcode == dns.RcodeNameError && auth && len(a.Answer) == 0)
+//@ before writeAndLog#3 assert[opt] (uf.edns0of(r) != nil) == (o != nil)
+//@ before writeAndLog#3 assert[ecs] o != nil ==> len(o.Option) == ite(ecs != nil, 1, 0)
+//@ before writeAndLog#3 assert[ecsobj] ecs == nil || ecs == uf.ecsof(r)
+//@ before Add#0 assert[cache-before-opt] o == nil
+//@ before Add#1 assert[cache-before-opt] o == nil
